@@ -202,6 +202,9 @@ struct ProxyCtl {
     kill_now: bool,
     /// refuse / drop connections until this instant (an outage)
     blackout_until: Option<Instant>,
+    /// nothing listens until this instant: connection attempts are refused by the operating system
+    listener_down_until: Option<Instant>,
+    refusal_periods: u64,
 }
 
 async fn pump(mut rd: tokio::net::tcp::OwnedReadHalf, mut wr: tokio::net::tcp::OwnedWriteHalf, ctl: Arc<Mutex<ProxyCtl>>, dead: Arc<AtomicBool>, mut rng: Rng) {
@@ -271,8 +274,31 @@ async fn pump(mut rd: tokio::net::tcp::OwnedReadHalf, mut wr: tokio::net::tcp::O
 
 async fn proxy(listener: TcpListener, upstream: std::net::SocketAddr, ctl: Arc<Mutex<ProxyCtl>>, stop: Arc<AtomicBool>, seed: u64) {
     let mut n = 0u64;
+    let port = listener.local_addr().map(|a| a.port()).unwrap_or(0);
+    let mut listener = Some(listener);
     loop {
-        let acc = tokio::time::timeout(Duration::from_millis(50), listener.accept()).await;
+        if stop.load(Ordering::SeqCst) {
+            break;
+        }
+        // "server down": nothing listens on the port, connection attempts are refused
+        let down_until = ctl.lock().unwrap().listener_down_until;
+        if down_until.map(|t| Instant::now() < t).unwrap_or(false) {
+            if listener.take().is_some() {
+                ctl.lock().unwrap().refusal_periods += 1;
+            }
+            tokio::time::sleep(Duration::from_millis(10)).await;
+            continue;
+        }
+        if listener.is_none() {
+            match TcpListener::bind(("127.0.0.1", port)).await {
+                Ok(l) => listener = Some(l),
+                Err(_) => {
+                    tokio::time::sleep(Duration::from_millis(10)).await;
+                    continue;
+                }
+            }
+        }
+        let acc = tokio::time::timeout(Duration::from_millis(50), listener.as_ref().unwrap().accept()).await;
         if stop.load(Ordering::SeqCst) {
             break;
         }
@@ -490,6 +516,14 @@ async fn scenario(a: &ShardArgs, idx: u64) {
             3 => {
                 ctl.lock().unwrap().chunk = r.below(4) as u8;
             }
+            5 if r.chance(1, 4) => {
+                let ms = r.range(100, 400);
+                let mut g = ctl.lock().unwrap();
+                g.listener_down_until = Some(Instant::now() + Duration::from_millis(ms));
+                g.kill_now = true;
+                drop(g);
+                hist.push(format!("+{}ms server unreachable for {ms} ms (connections refused)", t_stim.elapsed().as_millis()));
+            }
             4 if r.chance(1, 3) => {
                 let ms = r.range(100, 350);
                 ctl.lock().unwrap().blackout_until = Some(Instant::now() + Duration::from_millis(ms));
@@ -628,6 +662,7 @@ async fn scenario(a: &ShardArgs, idx: u64) {
         out::count("connections", c.connections);
         out::count("connection_cuts", c.cuts);
         out::count("bytes_proxied", c.bytes);
+        out::count("connection_refusal_periods", c.refusal_periods);
         if c.cuts > 0 && converged {
             out::count("converged_after_cuts", 1);
         }
